@@ -131,6 +131,11 @@ theorem core_primret {pr : Proj} {th : Thread} (h : TPcore pr th) (hpc : th.pc =
   obtain ⟨h1, h2, h3, h4, h5, h6, h7, h8, h9, h10⟩ := h
   core_tac
 
+theorem core_pollret {pr : Proj} {th : Thread} (h : TPcore pr th) (hpc : th.pc = .inSafe .poll) :
+    TPcore pr { th with pc := .exitCheck .poll } := by
+  obtain ⟨h1, h2, h3, h4, h5, h6, h7, h8, h9, h10⟩ := h
+  core_tac
+
 theorem core_lock {pr : Proj} {th : Thread} (k : Kind) (hk : isHeapKind k = true) (h : TPcore pr th)
     (hpc : th.pc = .inSafe k) : TPcore { pr with hl := true } { th with pc := .exitCheck k } := by
   obtain ⟨h1, h2, h3, h4, h5, h6, h7, h8, h9, h10⟩ := h
